@@ -1343,7 +1343,7 @@ class OpFusePair(Op):
             rng.shuffle(axes)
             new = []
             for b in fam:
-                new.append(g.emit({"op": "fuse", "in": [b], "args": {"axes": axes, "mode": "hard"}})[0])
+                new.append(g.emit({"op": "fuse", "in": [b], "args": {"axes": axes, "mode": None}})[0])      # default mode: explicit modes must not be mixed with defaults across the knob arms
             fam = new
         for _ in range(0 if crossed else rng.choice([1, 1, 2])):
             if g.sh(fam[0]) is None or g.sh(fam[0]).ndim < 2:
